@@ -569,7 +569,7 @@ def judge_cli(chk: Check, obs: dict):
 
 # ------------------------------------------------------------------ hash seeds through the library API (separate interpreter processes)
 HS_SEEDS = {"quick": ["0", "1", "7", "random"],
-            "thorough": [str(x) for x in range(8)] + ["42", "12345", "4294967295", "random", "random"]}
+            "thorough": ["0", "1", "2", "3", "7", "42", "4294967295", "random"]}
 HS_CHUNK = 6
 
 
@@ -948,7 +948,7 @@ def run(tier: str, seed: int, replay: str | None = None) -> int:
     dcases = directive_cases(seed, 14 if tier == "quick" else 150)
     n = min(n, int(os.environ.get("VERIF_CASES_CAP", n)))   # self-test runs on mutated copies use a smaller budget
     max_ops = 12 if tier == "quick" else 16
-    hcases = hashseed_cases(seed, 12 if tier == "quick" else 200)
+    hcases = hashseed_cases(seed, 12 if tier == "quick" else 60)
     ccases = constgroup_cases(seed, (60 if tier == "quick" else 600) * scale)
     skip = set(filter(None, os.environ.get("VERIF_C08_SKIP", "").split(",")))   # self-test trials of history mutations only: skip the slow side streams
     if "hs" in skip:
